@@ -116,28 +116,8 @@ theorem comments_flat (comments : List Str) :
     simp only [List.flatMap_cons, List.map_cons, ih]
     rfl
 
-/-- the generated `to_file` writes exactly these lines, each terminated by `\n` -/
-theorem toFile_eq_lines (comments : List Str) (shape : List Nat) (folded : Bool) (popIds : Option (List Str)) (fmi : Bool)
-    (dataRow : List Str) (maskBits : List Bool) :
-    toFile comments shape folded popIds fmi dataRow maskBits
-      = (toFileLines comments shape folded popIds fmi dataRow maskBits).flatMap term := by
-  unfold toFile toFileLines
-  rw [comments_flat]
-  cases fmi
-  · simp [List.flatMap_append, term, headerLine, dimsPart, savetxtRow, NL]
-  · cases popIds <;> cases folded <;>
-      simp [List.flatMap_append, term, headerLine, dimsPart, savetxtRow, NL, flagWord, labelsPart, FOLDED, UNFOLDED]
-
 def arrayToFileLines (comments : List Str) (shape : List Nat) (dataRow : List Str) : List Str :=
   comments.map commentLine ++ [dimsPart shape, joinWith SP dataRow]
-
-theorem arrayToFile_eq_lines (comments : List Str) (shape : List Nat) (dataRow : List Str) :
-    arrayToFile comments shape dataRow = (arrayToFileLines comments shape dataRow).flatMap term := by
-  unfold arrayToFile arrayToFileLines linesep
-  have : (comments.flatMap fun line => ['#', ' '] ++ strip line ++ [NL]) = (comments.map commentLine).flatMap term :=
-    comments_flat comments
-  rw [this]
-  simp [List.flatMap_append, term, dimsPart, tofileSep, NL]
 
 /-! ## cleanliness of the written lines -/
 
